@@ -52,9 +52,12 @@ def reference(nums, dens):
     return r
 
 
-def program(n, d):
-    nums = [pt.Btoi(pt.Txn.application_args[i]) for i in range(n)]
-    dens = [pt.Btoi(pt.Txn.application_args[n + i]) for i in range(d)]
+def program(n, d, lits=None):
+    """factors come from application arguments, except the positions in `lits` (position in the combined
+    numerator+denominator list -> Python int), which are literal Int constants"""
+    lits = lits or {}
+    fac = [pt.Int(lits[i]) if i in lits else pt.Btoi(pt.Txn.application_args[i]) for i in range(n + d)]
+    nums, dens = fac[:n], fac[n:]
     return pt.Seq(pt.App.globalPut(pt.Bytes("r"), pt.WideRatio(nums, dens)), pt.Int(1))
 
 
@@ -102,12 +105,13 @@ _TIER = "quick"
 def _worker(items, base):
     out = {"counters": {}, "outcomes": {}, "violations": [], "samples": []}
     cnt, oc = out["counters"], out["outcomes"]
-    for n, d, versions in items:
+    for n, d, versions, lits in items:
+        lits = {int(k): v for k, v in (lits or {}).items()}
         progs = []
         for v in versions:
             cfg = rb.Cfg(v, "A")
             try:
-                text = rb.compile_cfg(program(n, d), cfg)
+                text = rb.compile_cfg(program(n, d, lits), cfg)
             except Exception as e:
                 cnt["compile_fail"] = cnt.get("compile_fail", 0) + 1
                 continue
@@ -120,8 +124,13 @@ def _worker(items, base):
             # keep the extremes
             if M64 not in alpha:
                 alpha = alpha[:-1] + [M64]
-        cases = [(t[:n], t[n:]) for t in itertools.product(alpha, repeat=n + d)]
-        cases += near_overflow(n, d)
+        if lits:
+            small = [0, 1, 3, 1 << 32, M64]
+            pools = [[lits[i]] if i in lits else small for i in range(n + d)]
+            cases = [(t[:n], t[n:]) for t in itertools.product(*pools)]
+        else:
+            cases = [(t[:n], t[n:]) for t in itertools.product(alpha, repeat=n + d)]
+            cases += near_overflow(n, d)
         cnt["states"] = cnt.get("states", 0) + 1
         cnt["transitions"] = cnt.get("transitions", 0) + n + d
         for nums, dens in cases:
@@ -141,7 +150,7 @@ def _worker(items, base):
                         "driver": "wideratio", "size": n + d,
                         "title": "WideRatio(%r, %r): expected %s, program gave %s %r (v%d)" % (
                             list(nums), list(dens), "FAIL" if exp is None else exp, res.verdict, got, cfg.version),
-                        "nums": list(nums), "dens": list(dens), "cfg": cfg.to_json(), "teal": text,
+                        "nums": list(nums), "dens": list(dens), "lits": {str(k): v for k, v in lits.items()}, "cfg": cfg.to_json(), "teal": text,
                         "features": {"shape": [n, d], "expected_fail": exp is None},
                     })
         if len(out["samples"]) < 1:
@@ -157,11 +166,28 @@ def run(tier):
     rep.rule = ("every factor-count shape (n,d) in 1..6 x 1..6 minus (1,1) x ALL value assignments over the per-shape "
                 "boundary alphabet + constructed near-overflow lists, on every distinct instruction stream among versions")
     versions = (5, 6, 8, 10) if tier == "quick" else (5, 6, 7, 8, 9, 10)
-    items = [(n, d, versions) for n in range(1, 7) for d in range(1, 7) if (n, d) != (1, 1)]
+    items = [(n, d, versions, None) for n in range(1, 7) for d in range(1, 7) if (n, d) != (1, 1)]
     if tier == "quick":
-        items = [(n, d, v) for n, d, v in items if n + d <= 9]
+        items = [it for it in items if it[0] + it[1] <= 9]
         rep.cap("quick tier: shapes with n+d <= 9 and reduced alphabets; thorough covers all 35 shapes")
-    rep.bounds["shapes"] = len(items)
+    # literal (compile-time constant) factors at every position: a constant folded or skipped wrongly
+    lit_max = 5 if tier == "quick" else 7
+    nlit = 0
+    for n in range(1, 7):
+        for d in range(1, 7):
+            if (n, d) == (1, 1) or n + d > lit_max:
+                continue
+            for pos in range(n + d):
+                for lv in (0, 1, 2, M64):
+                    items.append((n, d, versions[:2], {pos: lv}))
+                    nlit += 1
+            if n + d <= 4:
+                for p1, p2 in itertools.combinations(range(n + d), 2):
+                    for l1, l2 in ((0, 1), (1, 0), (1, 1), (0, 0)):
+                        items.append((n, d, versions[:2], {p1: l1, p2: l2}))
+                        nlit += 1
+    rep.bounds["literal_factor_programs"] = nlit
+    rep.bounds["shapes"] = len(items) - nlit
     rep.bounds["versions"] = list(versions)
     for sh in common.pmap_shards(_worker, items, shard_size=1, order_seed=rep.seed):
         rep.merge(sh)
@@ -175,7 +201,7 @@ def run(tier):
 def replay(case):
     cfg = rb.Cfg.from_json(case["cfg"])
     n, d = len(case["nums"]), len(case["dens"])
-    text = rb.compile_cfg(program(n, d), cfg)
+    text = rb.compile_cfg(program(n, d, {int(k): v for k, v in case.get("lits", {}).items()}), cfg)
     args = [x.to_bytes(8, "big") for x in case["nums"] + case["dens"]]
     res = interp.run(asm.assemble(text), interp.Ctx(mode="A", group=[interp.default_txn(ApplicationArgs=args)]), fuel=5000)
     exp = reference(case["nums"], case["dens"])
